@@ -205,6 +205,20 @@ func (r *Run) writeEvidence() error {
 		ext = append(ext, "assumed external contract: "+k)
 	}
 	sort.Strings(ext)
+	carried := map[string]bool{}
+	for _, rep := range r.reports {
+		carried[rep.Key] = true
+	}
+	var inrepo []string
+	for k := range r.assumedContracts {
+		if strings.Contains(k, "(as spec function)") {
+			inrepo = append(inrepo, "contract used as spec function: "+k)
+		} else if !carried[k] {
+			inrepo = append(inrepo, "contract of /repo function used at call sites but not verified in this check (verified where it is a carrier): "+k)
+		}
+	}
+	sort.Strings(inrepo)
+	ext = append(ext, inrepo...)
 	trusted := []string{
 		"front end: go/packages + go/types + go/ssa (x/tools v0.29.0) translate the working tree faithfully for linux/amd64",
 		"gocv: translation of SSA instructions, heap model, loop cutting, modular call rule",
